@@ -49,7 +49,7 @@ def strategy_(g):
     cycles = g.choice([1, 1, 2, 3, 5])
     if src == "text":
         f = GT.gen_file(g, allow_custom=True, allow_junk=g.boolean())
-        return {"src": "text", "file": f, "cycles": cycles, "edits": [g.choice(["none", "none", "offset", "vertex", "measurement", "information"]) for _ in range(cycles)], "keep_object": [g.boolean() for _ in range(cycles)]}
+        return {"src": "text", "file": f, "cycles": cycles, "edits": [g.choice(["none", "none", "offset", "offset-reassign", "vertex", "measurement", "information"]) for _ in range(cycles)], "keep_object": [g.boolean() for _ in range(cycles)]}
     rnd = g.rnd
     extreme = g.boolean()
     fb = GT.FileBuilder(g)
@@ -98,7 +98,7 @@ def strategy_(g):
         for _ in range(rnd.randint(1, 2)):
             edges.insert(rnd.randrange(len(edges) + 1), _copy.deepcopy(rnd.choice(edges)))
     case = {"src": src, "verts": verts, "edges": edges, "params": {str(k): v for k, v in params.items()}, "registered": g.choice(["all", "all", "none", "some"]), "cycles": cycles, "extreme": extreme}
-    case["edits"] = [g.choice(["none", "none", "offset", "vertex", "measurement", "information"]) for _ in range(cycles)]
+    case["edits"] = [g.choice(["none", "none", "offset", "offset-reassign", "vertex", "measurement", "information"]) for _ in range(cycles)]
     case["keep_object"] = [g.boolean() for _ in range(cycles)]
     if rnd.random() < 0.3:
         case["extra_params2"] = {str(rnd.randint(0, 9)): _vals(g, 2, False) + [g.angle()]}
@@ -326,6 +326,19 @@ def _edit_in_place(g, what, c):
                     np.asarray(o)[0] += d
                 return True
         return False
+    if what == "offset-reassign":
+        # a re-calibrated sensor offset: every edge with this id gets a NEW offset object; a parameter registered on the
+        # graph (loaded from a file) still holds the old value, so the graph is now inconsistent - the export must either
+        # refuse or write what the edges carry
+        for e0 in g._edges:
+            if isinstance(e0, gs.EdgeLandmark) and isinstance(e0.offset, gs.PoseSE3):
+                new = e0.offset.copy()
+                np.asarray(new)[1] -= d
+                for e in g._edges:
+                    if isinstance(e, gs.EdgeLandmark) and isinstance(e.offset, gs.PoseSE3) and e.offset_id == e0.offset_id:
+                        e.offset = new
+                return True
+        return False
     if what == "vertex":
         if g._vertices:
             np.asarray(g._vertices[-1].pose)[0] += d
@@ -389,6 +402,9 @@ def check(case, ctx):
             try:
                 cur.to_g2o(path)
             except Exception as exc:  # noqa: BLE001
+                if ed == "offset-reassign" and c >= 1 and isinstance(exc, ValueError):
+                    ctx.event("refused:offset-conflicts-with-registered-parameter")
+                    return
                 if bad and c == 0:
                     ctx.event("refused:" + bad)
                     return
